@@ -337,6 +337,7 @@ def judge_logs(ctx, res, fam, logs, crashes):
     rejected = []
     # model acceptance, one runner process per log
     verdicts = {}
+    parsediffs = []
 
     def _accept(lp):
         if not os.path.exists(lp):
@@ -355,6 +356,8 @@ def judge_logs(ctx, res, fam, logs, crashes):
             p = line.split(" ", 4)
             if p[0] in ("OK", "REJECT", "FAULT") and len(p) >= 4:
                 verdicts.setdefault((p[1], p[2], p[3]), []).append((p[0], p[4] if len(p) > 4 else ""))
+            elif p[0] == "PARSEDIFF" and len(p) >= 5:
+                parsediffs.append((p[1], p[2], p[3], p[4]))
     for lp in logs:
         if not os.path.exists(lp):
             continue
@@ -400,6 +403,11 @@ def judge_logs(ctx, res, fam, logs, crashes):
                       dict(kind="broken-correspondence", correspondence="Accept.accept over SrvModel.step, projection " + fam,
                            family=fam, seed=ctx["seed"], idx=sc["idx"], divergence=why, log=sc["lines"]),
                       found_input=False)
+    for (f_, s_, i_, raw) in parsediffs[:3]:
+        res.violation("corr:Wire.parse_msgs:%s" % fam,
+                      "the wire model parses a generated record differently from what the generator built",
+                      dict(kind="broken-correspondence", correspondence="Wire.parse_msgs vs generator description",
+                           family=f_, seed=s_, idx=i_, record_hex=raw), found_input=False)
     for c in crashes[:3]:
         last = None
         for sc in split_scenarios(c["log"]):
@@ -421,7 +429,8 @@ def judge_logs(ctx, res, fam, logs, crashes):
     res.evaluations = evals
     res.distinct_nontrivial = len(distinct)
     res.samples = samples
-    res.extra.update(schedule_policies=policies, log_item_distribution=kinds, scenarios_rejected=len(rejected),
+    res.extra.update(records_parsed_by_wire_model=kinds.get("env:feed", 0), wire_parse_disagreements=len(parsediffs),
+                     schedule_policies=policies, log_item_distribution=kinds, scenarios_rejected=len(rejected),
                      worker_crashes=len(crashes), modes="S (scheduled at verif hook points: fifo = quiescent stepping, random = seeded schedules)")
 
 
